@@ -832,7 +832,14 @@ class SSet(SVal):
     def py_len(self, cx):
         card = getattr(self, "card", None)
         if card is None:
-            raise Unsupported("len() of a set without a cardinality model")
+            # python sets are finite: the cardinality is a non-negative integer that is 0 exactly for the empty set
+            # (nothing else about it is known unless the spec supplies a cardinality model)
+            srt = z3.ArraySort(self.kt.sort(), z3.BoolSort())
+            f = z3.Function("set_card_" + str(self.kt.sort()).replace(" ", "_").replace("(", "").replace(")", ""), srt, z3.IntSort())
+            n = f(self.dom)
+            k = z3.Const(fresh_name("k_card"), self.kt.sort())
+            cx.assume(z3.And(n >= 0, (n == 0) == z3.Not(z3.Exists([k], z3.Select(self.dom, k)))))
+            return SInt(n)
         return SInt(card)
 
     def py_eq(self, cx, o):
